@@ -492,7 +492,7 @@ class Interface:
     def dyn_isinstance(self, eng, v, tyname, st):
         if tyname in ('dict', 'Container'):
             return t.app('(_ is VRef)', t.BOOL, v.t)
-        if tyname in ('bytearray', 'list', 'tuple', 'float', 'ListContainer') or tyname in self.src.classes or tyname == 'io.BytesIO':
+        if tyname in ('bytearray', 'list', 'tuple', 'float', 'ListContainer', 'slice') or tyname in self.src.classes or tyname == 'io.BytesIO':
             # opaque objects: an uninterpreted test per type name
             prelude.declare_fun('is_' + tyname.replace('.', '_'), [t.VAL], t.BOOL)
             r = t.app('is_' + tyname.replace('.', '_'), t.BOOL, v.t)
